@@ -711,7 +711,7 @@ func LastIWithContext[T any](predicate func(ctx context.Context, item T, index i
 					func(ctx context.Context) {
 						if hasValue {
 							destination.NextWithContext(last.A, last.B)
-							destination.CompleteWithContext(last.A)
+							destination.CompleteWithContext(ctx)
 						} else {
 							destination.ErrorWithContext(ctx, ErrLastEmpty)
 						}
